@@ -36,4 +36,46 @@ theorem mapM_error_at {α β : Type} (f : α → Py β) (pre post : List α) (x 
     have := ih (fun z hz => hpre z (List.mem_cons_of_mem _ hz))
     simp [List.mapM_cons, hr, this, bind, Except.bind]
 
+/-- a successful `mapM`: every result comes from an element -/
+theorem mapM_ok_mem {α β : Type} (f : α → Py β) : ∀ (l : List α) (r : List β), l.mapM f = .ok r →
+    ∀ y ∈ r, ∃ x ∈ l, f x = .ok y
+  | [], r, h, y, hy => by
+    simp [List.mapM_nil, pure, Except.pure] at h
+    subst h; simp at hy
+  | x :: xs, r, h, y, hy => by
+    rw [List.mapM_cons] at h
+    cases hx : f x with
+    | error e => rw [hx] at h; simp [bind, Except.bind] at h
+    | ok v =>
+      cases hr : xs.mapM f with
+      | error e => rw [hx, hr] at h; simp [bind, Except.bind] at h
+      | ok vs =>
+        rw [hx, hr] at h
+        simp [bind, Except.bind, pure, Except.pure] at h
+        subst h
+        rcases List.mem_cons.mp hy with rfl | hy'
+        · exact ⟨x, List.mem_cons_self, hx⟩
+        · obtain ⟨x', hx', hfx⟩ := mapM_ok_mem f xs vs hr y hy'
+          exact ⟨x', List.mem_cons_of_mem _ hx', hfx⟩
+
+/-- … and every element has its result in it -/
+theorem mapM_ok_all {α β : Type} (f : α → Py β) : ∀ (l : List α) (r : List β), l.mapM f = .ok r →
+    ∀ x ∈ l, ∃ y ∈ r, f x = .ok y
+  | [], _, _, x, hx => by simp at hx
+  | z :: zs, r, h, x, hx => by
+    rw [List.mapM_cons] at h
+    cases hz : f z with
+    | error e => rw [hz] at h; simp [bind, Except.bind] at h
+    | ok v =>
+      cases hr : zs.mapM f with
+      | error e => rw [hz, hr] at h; simp [bind, Except.bind] at h
+      | ok vs =>
+        rw [hz, hr] at h
+        simp [bind, Except.bind, pure, Except.pure] at h
+        subst h
+        rcases List.mem_cons.mp hx with rfl | hx'
+        · exact ⟨v, List.mem_cons_self, hz⟩
+        · obtain ⟨y, hy, hfy⟩ := mapM_ok_all f zs vs hr x hx'
+          exact ⟨y, List.mem_cons_of_mem _ hy, hfy⟩
+
 end CGV
